@@ -60,8 +60,11 @@ class GraphServer(UDSServer):
 
     def __init__(self, sessions: list[int], edges: set[tuple[int, int]], realisation: str = "A",
                  nrc_salt: int = 0, cap: int = 10**9, mutant: str | None = None,
-                 reset_mode: str = "absent", slow: float = 0.0) -> None:
+                 reset_mode: str = "absent", slow: float = 0.0, latency: float = 0.0,
+                 reset_delay: float = 0.25) -> None:
         super().__init__()
+        self.latency = latency  # seconds every answer takes (bus + processing time)
+        self.reset_delay = reset_delay  # "pos-delayed": seconds between the positive answer and the reset itself
         # slow > 0: an accepted session change takes `slow` seconds; the ECU announces it with
         # requestCorrectlyReceived-ResponsePending (0x78) and answers within its P2* (5 s, as it reports in the
         # positive DiagnosticSessionControl reply), as ISO 14229 allows for every service
@@ -70,6 +73,7 @@ class GraphServer(UDSServer):
         # ECUReset (only asked for with the scanner's --reset option):
         #   "absent"  not answered, nothing happens          "pos"    positive answer, back to the default session
         #   "neg"     refused (conditionsNotCorrect)         "silent" performed (default session) but not answered
+        #   "pos-delayed"  positive answer at once, the reset itself 250 ms later
         self.reset_mode = reset_mode
         self.n_resets = 0
         self.sessions = sorted(sessions)
@@ -125,12 +129,23 @@ class GraphServer(UDSServer):
         self.n_req += 1
         if self.n_req > self.cap:
             raise RequestCapReached()
+        if self.latency > 0:
+            await asyncio.sleep(self.latency)
         before = self.state.session
         if request.service_id == 0x11 and self.reset_mode != "absent":
             self.n_other += 1
             self.n_resets += 1
             if self.reset_mode == "neg":
                 return service.NegativeResponse(0x11, UDSErrorCodes.conditionsNotCorrect)
+            if self.reset_mode == "pos-delayed":
+                # the ECU acknowledges first and reboots a moment later (reset_delay < 0.5 s), as real ECUs do; it keeps
+                # answering until then
+                def perform() -> None:
+                    self.log.append({"s": 0, "f": self.state.session, "ok": 1, "a": 1, "nrc": 0})
+                    self.state.reset()
+
+                asyncio.get_running_loop().call_later(self.reset_delay, perform)
+                return service.ECUResetResponse(request.pdu[1] & 0x7F)
             # a performed reset is logged as a pseudo entry (requested = 0) so that the ground truth stays a chain
             self.log.append({"s": 0, "f": before, "ok": 1, "a": 1, "nrc": 0})
             if self.reset_mode == "silent":
@@ -224,7 +239,8 @@ def run_scan(case: dict[str, Any]) -> dict[str, Any]:
     edges = {(int(f), int(t)) for f, t in case["E"]}
     cap = request_cap(len(sessions), case["depth"])
     srv = GraphServer(sessions, edges, case.get("real", "A"), case.get("salt", 0), cap, case.get("mutant"),
-                      case.get("reset_mode", "absent"), float(case.get("slow", 0.0)))
+                      case.get("reset_mode", "absent"), float(case.get("slow", 0.0)),
+                      float(case.get("latency", 0.0)), float(case.get("reset_delay", 0.25)))
     st = TCPUDSServerTransport(srv, TargetURI("tcp-lines://127.0.0.1:20162"))
     kw: dict[str, Any] = {}
     if case.get("skip_text"):
